@@ -504,6 +504,10 @@ class Gen:
         if it['body_open'] < 0:
             raise LostAnchor('function has no body: ' + sel)
         fnname = sel.replace('fn ', '')
+        if ' for ' in sel:
+            # trait impl method: name it after the module directory and the implementing type
+            ty, meth = sel.split(' for ', 1)[1].rsplit('::', 1)
+            fnname = '%s::%s::%s' % (os.path.basename(os.path.dirname(rel)), ty, meth)
         closure_mode = 'closure_of' in spec
         if closure_mode:
             # R12 lambda lifting: the k-th closure literal of the host function becomes a function whose
